@@ -9,6 +9,8 @@ structural clauses are:
          in index order before emitting the operator.
   C01.S  brackets are balanced on every non-error path of every Compiler method: scope_begin/scope_end,
          push_subindex/pop_subindex, compile_begin/compile_end (a missing scope_end shifts every later local slot).
+  C01.V  name resolution: resolve_var searches the locals of the current function so that the innermost (last declared)
+         binding of a name wins, and returns the front-based slot index of that binding.
   (+ C06.O local addressing and C10.W operand decoding, shared, see those properties)
 """
 from cao.facts import AnchorMissing, hir_walk, hir_callee, hir_strip, hir_local_id, pat_variants, short
@@ -254,8 +256,16 @@ def rule_s(F):
     return res
 
 
+def rule_v(F):
+    """innermost binding wins: the search over `locals` in resolve_var stops at the first hit of a *reversed* scan whose
+    reported index counts from the front (enumerate before rev, or rposition)."""
+    from cao import scoping as sc
+    return sc.rule_innermost(F, "C01.V", "compiler::Compiler::resolve_var", "locals", "C01/V/resolve_var")
+
+
 RULES = [
     Rule("C01.T", rule_t, 36, "operator cards -> like-named instruction -> like operator"),
     Rule("C01.O", rule_o, 10, "operand order of binary operators"),
     Rule("C01.S", rule_s, 12, "scope / sub-index / nested-function brackets are balanced"),
+    Rule("C01.V", rule_v, 1, "a name resolves to its innermost binding"),
 ]
